@@ -89,7 +89,10 @@ fn read_alphabet(src: &mut &[u8]) -> io::Result<[bool; ALPHABET_SIZE]> {
 
             for _ in 0..len {
                 alphabet[usize::from(sym)] = true;
-                sym += 1;
+
+                sym = sym.checked_add(1).ok_or_else(|| {
+                    io::Error::new(io::ErrorKind::InvalidData, "invalid symbol run length")
+                })?;
             }
         }
 
@@ -152,6 +155,21 @@ fn split_off<'a>(src: &mut &'a [u8], len: usize) -> io::Result<&'a [u8]> {
 #[cfg(test)]
 mod tests {
     use super::*;
+
+    #[test]
+    fn test_read_alphabet_with_run_past_last_symbol() {
+        let src = [
+            0xfe, // symbol = 254
+            0xff, // symbol = 255
+            0x01, // run length = 1
+            0x00, // EOF
+        ];
+
+        assert!(matches!(
+            read_alphabet(&mut &src[..]),
+            Err(e) if e.kind() == io::ErrorKind::InvalidData
+        ));
+    }
 
     #[test]
     fn test_decode_order_0() -> io::Result<()> {
